@@ -14,19 +14,19 @@ for f in sorted(glob.glob('/verif/evidence/*.json')):
 REQUIRED = {
  'C01': ['probes.decode_with_exactly_k','probes.decode_with_surplus','probes.all_originals_lost','probes.final_get_with_enough_durable','probes.decode_failed_then_succeeded_on_same_object','faults_fired.F1.message_lost','faults_fired.F4.crashes','faults_fired.F5.partitions'],
  'C02': ['counters.r1.symbols_compared','counters.c02.ancestor_release_encodes_compared','probes.partial_last_block'],
- 'C03': ['counters.lockstep.fft_calls','counters.lockstep.eval_poly_calls','counters.lockstep.perturbed_shadow_calls','counters.c03.cross_machine_gets'],
- 'C04': ['counters.c04.slot_checks','probes.partial_last_block'],
- 'C05': ['probes.round_on_reused_object','probes.work_changed_owner','probes.reset_crosses_rate','counters.r3.shadow_rounds'],
+ 'C03': ['counters.lockstep.fft_calls','counters.lockstep.eval_poly_calls','counters.lockstep.perturbed_shadow_calls','counters.lockstep.far_position_shadow_calls','counters.c03.cross_machine_gets'],
+ 'C04': ['counters.c04.slot_checks','probes.partial_last_block','probes.shard_array_contract'],
+ 'C05': ['probes.round_on_reused_object','probes.work_changed_owner','probes.reset_crosses_rate','counters.r3.shadow_rounds','probes.marathon_histories','probes.same_positions_after_sibling_reset'],
  'C06': ['faults_fired.F10.reset_bad_size','faults_fired.F8.index_out_of_range','faults_fired.F7.wrong_length','counters.oneshot.errors_judged'],
  'C07': ['probes.round_after_failed_call','faults_fired.F10.reset_bad_size','faults_fired.F10.reset_bad_counts'],
  'C08': ['probes.supports','probes.validate','probes.constructor','counters.corner.decodes'],
  'C09': ['counters.c09.twin_rounds_rates_distinguishable','probes.reset_crosses_rate'],
- 'C10': ['counters.c10.oneshot_decode_compared','counters.c10.oneshot_encode_compared','probes.oneshot_no_recovery_given','counters.oneshot.errors_judged'],
+ 'C10': ['counters.c10.oneshot_decode_compared','counters.c10.oneshot_encode_compared','probes.oneshot_no_recovery_given','counters.oneshot.errors_judged','counters.oneshot.iter_not_fused','counters.oneshot.iter_loose_hint','counters.oneshot.iter_reentrant'],
  'C11': ['counters.c11.order_variants','counters.c11.subset_variants','faults_fired.F3.inversions','probes.decode_with_surplus'],
- 'C12': ['counters.enc.rounds','counters.dec.rounds','probes.no_original_lost'],
+ 'C12': ['counters.enc.rounds','counters.dec.rounds','probes.no_original_lost','faults_fired.F14.caller_unwinds_through_result'],
  'C14': ['counters.cpu.masked_rounds'],
  'C17': ['counters.alloc.regions_checked','probes.reset_within_held','probes.recycle_within_held'],
- 'C16': ['probes.round_finished_by_a_different_thread','faults_fired.F12.preemptions'],
+ 'C16': ['probes.round_finished_by_a_different_thread','faults_fired.F12.preemptions','probes.codecs_left_in_thread_local_storage_at_thread_exit','probes.threads_starting_with_a_direct_eval_poly_call'],
 }
 for f in sorted(glob.glob('/verif/evidence/*.json')):
     e = json.load(open(f)); pid = e['property_id']
